@@ -222,34 +222,38 @@ def run(F, tier, res):
     res.rule('C17.NEXT', nn, 1, 'next-colour function: palette[n % len] unless equal to the excluded colour, then palette[(n+1) % len]', discharged=okn)
     # ---------- MEMO
     nm = okm = 0
-    for i, c in F.calls(bm):
+    gc_rep = (_pidx(gc, lambda t_: t_ == 'bool') or [4])[0]
+    # the function that asks for the colour (the style function itself, or a helper extracted from it) records it
+    for fm in sorted(p_ for p_ in F.fn_bodies if any(callee_of(c_) == gc for _, c_ in F.calls(p_))):
+      for i, c in F.calls(fm):
         if callee_of(c) != gc:
             continue
         nm += 1
-        ins = [(j, cc) for j, cc in F.calls(bm) if callee_of(cc).endswith('::insert') and 'HashMap' in callee_full(cc) and any(r[0] == 'param' and 'blame_key_colors' in r[2] for r in F.trace(bm, cc['args'][0]))]
+        ins = [(j, cc) for j, cc in F.calls(fm) if callee_of(cc).endswith('::insert') and 'HashMap' in callee_full(cc) and any(r[0] in ('param', 'local') and 'blame_key_colors' in r[2] for r in F.trace(fm, cc['args'][0]))]
+        kpar = {r[1] for r in F.trace(fm, c['args'][gc_key - 1]) if r[0] == 'param' and not r[2]}
+        rpar = {r[1] for r in F.trace(fm, c['args'][gc_rep - 1]) if r[0] == 'param' and not r[2]} if gc_rep - 1 < len(c['args']) else set()
         good = False
         for (j, cc) in ins:
-            key_ok = any(r[0] == 'param' and r[1] == 2 for r in F.trace(bm, cc['args'][1], deep=True))
-            val_ok = any(r[0] == 'call' and r[1] == gc for r in F.trace(bm, cc['args'][2], deep=True))
-            same_key = any(r[0] == 'param' and r[1] == 2 for r in F.trace(bm, c['args'][gc_key - 1]))
-            if key_ok and val_ok and same_key:
+            key_ok = any(r[0] == 'param' and r[1] in kpar for r in F.trace(fm, cc['args'][1], deep=True))
+            val_ok = any(r[0] == 'call' and r[1] == gc for r in F.trace(fm, cc['args'][2], deep=True))
+            if key_ok and val_ok and kpar:
                 # every path on which the key is NOT a repeat must pass the insert (for a repeat the stored colour is the same)
                 S2 = {}
                 cut = set()
-                for (sb, op, arms, other) in Ru.switches(F, bm):
-                    if any(r[0] == 'param' and r[1] == 4 and not r[2] for r in F.trace(bm, op)):
+                for (sb, op, arms, other) in Ru.switches(F, fm):
+                    if any(r[0] == 'param' and r[1] in rpar and not r[2] for r in F.trace(fm, op)):
                         tt, ft = Ru.bool_edges(arms, other)
-                        neg = Ru.negations(F, bm, op) % 2 == 1
+                        neg = Ru.negations(F, fm, op) % 2 == 1
                         cut.add((sb, ft if neg else tt))
-                for b_, ss in F.cfg(bm).items():
+                for b_, ss in F.cfg(fm).items():
                     S2[b_] = [x for x in ss if (b_, x) not in cut]
                 r_ = reach(S2, c['target'], avoid={j})
-                if not any(x in r_ for x in Ru.returns(F, bm)):
+                if not any(x in r_ for x in Ru.returns(F, fm)):
                     good = True
         if good:
             okm += 1
         else:
-            res.violate('MEMO', 'fn=%s' % bm, 'the colour chosen for a blame key is not recorded under that key on every path: the next line of the same commit may get a different colour', where=F.span_of_call(c))
+            res.violate('MEMO', 'fn=%s' % fm, 'the colour chosen for a blame key is not recorded under that key on every path: the next line of the same commit may get a different colour', where=F.span_of_call(c))
     # is_repeat provenance + state
     hb = [p for p in F.fn_bodies if any(callee_of(c) == bm for _, c in F.calls(p))]
     for p in hb:
